@@ -518,6 +518,12 @@ fn check_quote(c: &QuoteCase, ctx: &mut Ctx) {
         Claimed::Unrelated(b) => unrelated_peer(b),
     };
     let expect = t.expect(&claimed);
+    // the genuine quote is (usually) seen and verified before any altered copy of it turns up:
+    // whatever a verifier remembers about it must not make the altered copy pass
+    if c.muts.len() % 2 == 1 || c.fresh_age_s.is_some() {
+        let _ = ctx.no_panic("check_is_signed_by_claimed_peer", || honest.check_is_signed_by_claimed_peer(base.signer()));
+        ctx.label("genuine_quote_verified_first");
+    }
     let Some(got) = ctx.no_panic("check_is_signed_by_claimed_peer", || t.quote.check_is_signed_by_claimed_peer(claimed)) else {
         return;
     };
